@@ -65,7 +65,9 @@ ECons(r) == [j \in 1..Len(r.cons) |-> ExpandCons(r, r.cons[j])]
 (* constraint j honoured by the set `hit` of EG edges used by one route *)
 HonouredBy(r, c, hit) ==
   LET n == r.cov[1]  d == r.cov[2] IN
-  IF r.cls \in DAGClasses
+  IF r.cls \in DAGClasses /\ UsesLengthCoverage(r)
+  THEN HonouredByLength(r, c, {j \in 1..Len(c) : c[j] \in hit})
+  ELSE IF r.cls \in DAGClasses
   THEN Cardinality({j \in 1..Len(c) : c[j] \in hit}) * d >= Len(c) * n
   ELSE Cardinality(ToSet(c) \cap hit) * d >= Cardinality(ToSet(c)) * n
 
